@@ -549,6 +549,11 @@ func (w *World) replayGo(fr *FuncResult, body string) ReplayResult {
 		}
 	}
 	fmt.Fprintf(&b, "package %s\n\nimport (\n\t\"bytes\"\n\t\"fmt\"\n\t\"strings\"\n\t\"testing\"\n%s)\n\nvar _ = bytes.Contains\nvar _ = strings.Contains\n\n", fn.Pkg.Pkg.Name(), extra)
+	if fr.Con != nil {
+		for _, d := range fr.Con.ReplayDecls {
+			b.WriteString(d + "\n\n")
+		}
+	}
 	b.WriteString("func TestVcgoReplay(t *testing.T) {\n\tdefer func() {\n\t\tif r := recover(); r != nil {\n\t\t\tfmt.Printf(\"VCGO-PANIC %v\\n\", r)\n\t\t}\n\t}()\n")
 	b.WriteString("\t" + body + "\n}\n")
 	src := b.String()
